@@ -22,5 +22,6 @@ var registry = map[string]simkit.World{
 	"C13": fsmworld.C13{},
 	"C15": fsmworld.C15{},
 	"C18": resourceworld.World{},
+	"C19": fsmworld.C19{},
 	"C20": archiveworld.World{},
 }
